@@ -170,7 +170,7 @@ def pipeline_cases(draw):
         pair = draw(gen.image_pair(min_rows=6, max_rows=14, min_cols=8, max_cols=18, max_val=6, masks=True))
     steps = draw(gen.legal_pipeline(validation="maybe", fill=False, refinement=False, filters=False, max_post=1))
     a = draw(st.integers(-4, 1))
-    p = {"pair": pair, "pipeline": steps, "disp": [a, a + draw(st.integers(0, 5))]}
+    p = {"pair": pair, "pipeline": steps, "disp": gen.clamp_interval([a, a + draw(st.integers(0, 5))], pair["W"], steps)}
     return p
 
 
